@@ -25,6 +25,8 @@ def read_back(buf):
         return DiskFile(buffer=buf).list_files(), None
     except VirtualFileValidationError as e:
         return None, str(e)
+    except Exception as e:  # noqa: BLE001 - any other exception: the files were not listed either
+        return None, "%s: %s" % (type(e).__name__, e)
 
 
 def make(sid, specs, order, allsym, full_index, orders):
@@ -45,6 +47,13 @@ def make(sid, specs, order, allsym, full_index, orders):
             return True, info
         env["stage"] = "read"
         env["rerr"] = rerr
+        try:
+            chains = [OD.chain(buf, e["first"])[0] for e in OD.entries(buf)]
+            if len(chains) == len(descs):
+                env["near_end"] = _near_end(chains, descs)
+                info["chains"] = chains
+        except Exception:  # noqa: BLE001 - a structurally broken image is C08's subject; the class stays unmatched
+            pass
         return ctx.known(PID, {"part": "roundtrip"}, env), info
     return Ob("C07:rt:" + sid, body, timeout=(1500 if "big" in sid or "55000" in sid else 300), tags={"part": "roundtrip"}, text="%s [%s]" % (" + ".join(s.text() for s in specs), order))
 
@@ -109,6 +118,16 @@ def obligations(tier, seed):
         obs.append(make_foreign("pair:%d-%d:%s%d" % (a, b, kind, L), [S("FOREIGN", L, kind, ext="BIN" if kind == "ml" else "BAS")], [[a, b]]))
     for (a, b, c) in triples:
         obs.append(make_foreign("triple:%d-%d-%d" % (a, b, c), [S("TRIPLE", 4700, "ml")], [[a, b, c]]))
+    # every link VALUE a chain can hold, for every file kind (the reader takes ML/BASIC lengths from the preamble and ASCII
+    # lengths from the allocation table, so the three kinds exercise different code on the same chain)
+    targets = list(range(68)) if tier == "thorough" else [0, 1, 31, 32, 33, 34, 48, 63, 64, 65, 66, 67]
+    for b in targets:
+        a = 10 if b != 10 else 11
+        c = 20 if b != 20 else 21
+        for kind, L, ext in (("ascii", 5000, "TXT"), ("basic", 5000, "BAS"), ("ml", 4700, "BIN")):
+            obs.append(make_foreign("link:%d-%d-%d:%s" % (a, b, c, kind), [S("LINKED", L, kind, ext=ext)], [[a, b, c]]))
+        obs.append(make_foreign("link:%d-%d:ascii" % (a, b), [S("LINK2", 2400, "ascii", ext="TXT")], [[a, b]]))
+        obs.append(make_foreign("first:%d:ascii" % b, [S("FIRSTG", 300, "ascii", ext="TXT"), S("SECOND", 20, "ml")], [[b], [a]]))
     obs.append(make_foreign("two-files", [S("ONE", 2400, "ml"), S("TWO", 100, "ascii", ext="TXT")], [[40, 3], [41]]))
     obs.append(make_foreign("single-gran", [S("ONE", 100, "ml")], [[27]]))
     obs.append(make_foreign("holes", [S("FIRST", 30, "ml"), S("THIRD", 40, "ml"), S("FOURTH", 10, "basic", ext="BAS")], [[5], [9], [40]],
